@@ -85,6 +85,10 @@ Fixpoint number_frags (seq : N) (i : N) (cnt : N) (tok : bytes) (inface mark : o
               :: number_frags seq (i + 1) cnt tok inface mark r
   end.
 
+(* the link service's own marking decision (congestion marking enabled, more than the threshold sent since the last check, marking
+   interval elapsed, socket send queue above the threshold) is an input: mark_decision = true replaces the upstream mark by 1 *)
+Definition effective_mark (mark_decision : bool) (upstream : option N) : option N := if mark_decision then Some 1 else upstream.
+
 (* mark is the congestion mark that will be attached (pkt.CongestionMark, or 1 when the link service decides to mark:
    that decision depends on time and socket queue length and is an input here).  inface is out.InFace.
    Result: header fields of every frame, and the next sequence number. *)
